@@ -113,21 +113,31 @@ def build_letters(tier="quick", dry=False):
     add("regions_8", lambda: zonal.regions(_da(_zones().astype("f8")), neighborhood=8), quick=False)
     # --- classify: k / bin counts ------------------------------------------------------------------
     add("reclassify_3", lambda: classify.reclassify(_da(_base()), bins=[-5, 0, 20], new_values=[1, 2, 3]), core=True)
-    add("reclassify_5", lambda: classify.reclassify(_da(_base()), bins=[-9, -5, 0, 5, 20], new_values=[1, 2, 3, 4, 5]))
+    add("reclassify_5", lambda: classify.reclassify(_da(_base()), bins=[-9, -5, 0, 5, 20], new_values=[1, 2, 3, 4, 5]), quick=False)
     add("quantile_3", lambda: classify.quantile(_da(_base()), k=3), quick=False)
     add("natural_breaks_3", lambda: classify.natural_breaks(_da(_base()), k=3), quick=False)
     add("natural_breaks_5", lambda: classify.natural_breaks(_da(_base()), k=5), quick=False)
+    # sub-sampling branch (num_sample < size) draws from an RNG: must be a function of the arguments only
+    add("natural_breaks_sample12_k3", lambda: classify.natural_breaks(_da(_base()), num_sample=12, k=3))
+    add("natural_breaks_sample20_k4", lambda: classify.natural_breaks(_da(_base()), num_sample=20, k=4))
     add("equal_interval_3", lambda: classify.equal_interval(_da(_base()), k=3))
     add("equal_interval_5", lambda: classify.equal_interval(_da(_base()), k=5), quick=False)
     add("binary", lambda: classify.binary(_da(np.round(_base())), [1, 3, 7]), quick=False)
     # --- polygonize: type-based comparison generation ----------------------------------------------
     add("polygonize_int", lambda: polygonize(_da(_zones())))
-    add("polygonize_float_c8", lambda: polygonize(_da(_zones().astype("f8") * 0.5), connectivity=8))
+    add("polygonize_float_c8", lambda: polygonize(_da(_zones().astype("f8") * 0.5), connectivity=8), quick=False)
     add("polygonize_mask", lambda: polygonize(_da(_zones()), mask=_da((_zones() != 2))), quick=False)
     # --- generators (global RNG) -------------------------------------------------------------------
     add("perlin_s5", lambda: xs.perlin(_da(np.zeros((5, 6)))), core=True)
     add("perlin_s6", lambda: xs.perlin(_da(np.zeros((5, 6))), seed=6))
     add("generate_terrain", lambda: xs.generate_terrain(_da(np.zeros((5, 6)))), quick=False)
+    # seeded generators are functions of seed, shape AND extent: same shape, different windows of one full extent
+    add("terrain_full_extent_ne", lambda: xs.generate_terrain(_da(np.zeros((5, 6))), x_range=(250, 500), y_range=(250, 500),
+                                                               full_extent=(0, 0, 500, 500)))
+    add("terrain_full_extent_sw", lambda: xs.generate_terrain(_da(np.zeros((5, 6))), x_range=(0, 250), y_range=(0, 250),
+                                                               full_extent=(0, 0, 500, 500), seed=10))
+    add("terrain_seed3_dask", lambda: _fin(xs.generate_terrain(_da(np.zeros((5, 6)), CH), seed=3)), quick=False)
+    add("perlin_freq23", lambda: xs.perlin(_da(np.zeros((5, 6))), freq=(2, 3)), quick=False)
     # --- pathfinding / viewshed --------------------------------------------------------------------
     add("a_star_8", lambda: xs.a_star_search(_da(np.abs(_base()) + 1), (4.0, 0.0), (0.0, 2.5), barriers=[]), quick=False)
     add("a_star_4_barriers", lambda: xs.a_star_search(_da(np.round(np.abs(_base()))), (4.0, 0.0), (0.0, 2.5), barriers=[3.0],
